@@ -287,7 +287,11 @@ def replay(pid, path):
     if monitors.GL_WITNESSES:
         viols.append({"kind": "grouped_list_invariant", "msg": monitors.GL_WITNESSES[0]["problem"]})
     print(json.dumps(jsonable({"status": res.get("status"), "violations": viols, "sample": res.get("sample")}), indent=1)[:6000])
-    if viols:
+    open_mech = {f["mechanism"]: f for f in known_findings() if f.get("status") == "open" and (f.get("property") == pid or pid in f.get("also", []))}
+    new = [v for v in viols if v.get("mechanism") not in open_mech]
+    for mech in sorted({v.get("mechanism") for v in viols if v.get("mechanism") in open_mech}):
+        print(f"KNOWN-FINDING: property={pid} {open_mech[mech]['id']} {open_mech[mech]['what']}")
+    if new:
         print(f"VIOLATION property={pid} replay={path}")
         return 1
     return 0
